@@ -18,7 +18,18 @@ pub struct C09;
 
 #[derive(Clone, Debug, Serialize, Deserialize)]
 pub enum Case {
-    Stack { robot: RobotSpec, layers: Vec<Layer>, j: [f64; 6], prev: PrevGen, entry: u8, j6: f64 },
+    Stack {
+        robot: RobotSpec,
+        layers: Vec<Layer>,
+        j: [f64; 6],
+        prev: PrevGen,
+        entry: u8,
+        j6: f64,
+        /// optional limits of the wrapped robot: whole-circle ranges (nothing is filtered) whose centres are away from zero,
+        /// so that the CONSTRAINT_CENTERED marker and the sorting weight mean something through the stack
+        #[serde(default)]
+        limits: Option<LimitSpec>,
+    },
     Linear { robot: RobotSpec, layers: Vec<Layer>, j: [f64; 6], axis: u8, distance: f64, base: IsoSpec },
     Gantry { robot: RobotSpec, layers: Vec<Layer>, j: [f64; 6], t: [f64; 3], base: IsoSpec },
 }
@@ -44,13 +55,16 @@ fn iso_close(a: &Iso, b: &Iso, tol_p: f64, tol_a: f64) -> Result<(), String> {
     }
 }
 
-fn check_stack(robot: &RobotSpec, layers_in: &[Layer], j: &[f64; 6], prev: &PrevGen, entry: u8, j6: f64, ctx: &mut Ctx, matrix: bool) -> Res {
+fn check_stack(robot: &RobotSpec, layers_in: &[Layer], j: &[f64; 6], prev: &PrevGen, entry: u8, j6: f64, limits: &Option<LimitSpec>, ctx: &mut Ctx, matrix: bool) -> Res {
     let r = robot;
     let entry = entry % 4;
     let what = ENTRY_NAMES[entry as usize];
     let layers = if entry >= 2 { axialize(layers_in) } else { layers_in.to_vec() };
     let name = stack_name(&layers);
-    let inner = Arc::new(opw(r));
+    let inner = Arc::new(match limits {
+        Some(l) => opw_c(r, l.build()),
+        None => opw(r),
+    });
     let kin = build_stack(inner.clone(), &layers);
     let size = r.reach() + size_of(&layers);
     let tol_p9 = 1e-9 * (1.0 + size);
@@ -85,7 +99,14 @@ fn check_stack(robot: &RobotSpec, layers_in: &[Layer], j: &[f64; 6], prev: &Prev
     let s_w = kin.kinematic_singularity(j);
     let s_i = inner.kinematic_singularity(j);
     ensure!(s_w == s_i, "singularity report is that of the wrapped robot", "stack {}: {:?} vs {:?}", name, s_w, s_i);
-    ensure!(kin.constraints().is_none(), "limits reported are those of the wrapped robot (none here)", "stack {}", name);
+    match (limits, kin.constraints()) {
+        (None, None) => {}
+        (Some(l), Some(c)) => {
+            ensure!(c.from == l.from && c.to == l.to && c.sorting_weight == l.weight, "limits reported are those of the wrapped robot", "stack {}: {:?} vs {:?}", name, c, l);
+            ctx.class("wrapped robot has limits (whole-circle, off-centre)");
+        }
+        (l, c) => return Err(viol!("limits reported are those of the wrapped robot", "stack {}: wrapped robot has {:?}, the stack reports {:?}", name, l, c.as_ref().map(|c| (c.from, c.to)))),
+    }
     if matrix {
         ctx.class(&format!("matrix:{}:kinematic_singularity", layers[0].name()));
         ctx.class(&format!("matrix:{}:constraints", layers[0].name()));
@@ -110,8 +131,11 @@ fn check_stack(robot: &RobotSpec, layers_in: &[Layer], j: &[f64; 6], prev: &Prev
     // each entry point keeps its own contract through the stack
     match entry {
         1 | 3 => {
-            let rf = reference(&p, &None);
-            check_order(&sols, &rf, &None, &format!("{} through {}", what, name))?;
+            let rf = reference(&p, limits);
+            check_order(&sols, &rf, limits, &format!("{} through {}", what, name))?;
+            if p[0].is_nan() && limits.is_some() {
+                ctx.class("CONSTRAINT_CENTERED marker through a stack whose robot has off-centre limits");
+            }
             if entry == 3 {
                 for s in &sols {
                     ensure!(s[5].to_bits() == p[5].to_bits() || (s[5] == 0.0 && p[5] == 0.0), "5-DOF variants return the caller's J6 through the stack", "{} through {}: J6={} previous J6={}", what, name, s[5], p[5]);
@@ -155,7 +179,7 @@ impl Property for C09 {
         "C09"
     }
     fn rule(&self) -> String {
-        "stacks of depth 1..3 over {Tool, Base, Frame} in any order with random isometries (axial tools/frames for the 5-DOF entry points) x robots (dof 6, all conventions) x joint vectors x previous x four inverse entry points + forward + link poses + singularity + constraints; \
+        "stacks of depth 1..3 over {Tool, Base, Frame} in any order with random isometries (axial tools/frames for the 5-DOF entry points) x robots (dof 6, all conventions) x joint vectors x previous x four inverse entry points + forward + link poses + singularity + constraints; one stack in three wraps a robot with whole-circle limits whose centres are off zero (weights 0, 1, between), so that the CONSTRAINT_CENTERED marker and the ordering contract are observable through the stack; \
          the delegation matrix 3 wrapper types x 8 methods is enumerated in every run with fixed non-trivial transforms over the catalogue robots (per-cell counts under classes matrix:*); LinearAxis (axis 0..2, +-5 m) and Gantry through the hook constructors. \
          Non-trivial: the inverse call returned at least one answer (each mapped back through the hand-composed forward) or a LinearAxis/Gantry case."
             .into()
@@ -188,8 +212,8 @@ impl Property for C09 {
                         for prev in [PrevGen::Source, PrevGen::Given { j: [0.5, -0.5, 0.25, 1.0, -1.0, 2.0] }] {
                             ctx.evaluations += 1;
                             let layers = vec![layer];
-                            if let Err(v) = check_stack(&robot, &layers, j, &prev, entry, 0.37, ctx, true) {
-                                return Err((Case::Stack { robot, layers, j: *j, prev, entry, j6: 0.37 }, v));
+                            if let Err(v) = check_stack(&robot, &layers, j, &prev, entry, 0.37, &None, ctx, true) {
+                                return Err((Case::Stack { robot, layers, j: *j, prev, entry, j6: 0.37, limits: None }, v));
                             }
                             ctx.distinct_extra += 1;
                         }
@@ -209,8 +233,16 @@ impl Property for C09 {
             prev_2pi(),
             0u8..4,
             prop_oneof![1 => Just(0.0), 3 => -10.0..10.0f64],
+            prop_oneof![
+                2 => Just(None),
+                1 => (prop::array::uniform6(-3.0..3.0f64), prop::array::uniform6(3.2..4.5f64), weight_strategy()).prop_map(|(c, h, weight)| Some(LimitSpec {
+                    from: std::array::from_fn(|k| c[k] - h[k]),
+                    to: std::array::from_fn(|k| c[k] + h[k]),
+                    weight,
+                })),
+            ],
         )
-            .prop_map(|(robot, layers, j, prev, entry, j6)| Case::Stack { robot, layers, j, prev, entry, j6 });
+            .prop_map(|(robot, layers, j, prev, entry, j6, limits)| Case::Stack { robot, layers, j, prev, entry, j6, limits });
         let linear = (robot.clone(), prop::collection::vec(tbf_layer(1.0), 0..3), joints_mixed(), 0u8..3, -5.0..5.0f64, iso_strategy(5.0))
             .prop_map(|(robot, layers, j, axis, distance, base)| Case::Linear { robot, layers, j, axis, distance, base });
         let gantry = (robot, prop::collection::vec(tbf_layer(1.0), 0..3), joints_mixed(), prop::array::uniform3(-5.0..5.0f64), iso_strategy(5.0))
@@ -219,10 +251,10 @@ impl Property for C09 {
     }
     fn check(&self, c: &Case, ctx: &mut Ctx) -> Res {
         match c {
-            Case::Stack { robot, layers, j, prev, entry, j6 } => {
+            Case::Stack { robot, layers, j, prev, entry, j6, limits } => {
                 let order: String = layers.iter().map(|l| &l.name()[..1]).collect();
                 ctx.class(&format!("order:{}", order));
-                check_stack(robot, layers, j, prev, *entry, *j6, ctx, false)
+                check_stack(robot, layers, j, prev, *entry, *j6, limits, ctx, false)
             }
             Case::Linear { robot, layers, j, axis, distance, base } => {
                 let kin = build_stack(Arc::new(opw(robot)), layers);
